@@ -6,21 +6,26 @@ from fe_common import *
 META = dict(
     property_id='C01',
     design_ref='DESIGN.md section 4, C01',
-    technique='Coq proof (chunk-level HTTP / SCGI / FastCGI readers refine byte- and stream-level machines: segmentation independence by induction; decode-encode round trips for every FastCGI record layout; keep-alive hand-over; agreement of the three front-ends; string_pool in-bounds invariant) + extracted-model correspondence over a real in-process service + implementation-only oracle',
-    level_text=('40 theorems in coq/C01/Props.v about the executable model of the HTTP header reader (device getc/ungetc + parser state machine + '
+    technique='Coq proof (chunk-level HTTP / SCGI / FastCGI readers refine byte- and stream-level machines: segmentation independence by induction; decode-encode round trips for every FastCGI record layout and for header values of every lexical shape; keep-alive: every request as if alone; agreement of the three front-ends incl. forms and cookies; string_map refines the association list for every hash function; string_pool in-bounds invariant) + extracted-model correspondence over a real in-process service and the real header-only classes + implementation-only oracle',
+    level_text=('58 theorems in coq/C01/Props.v about the executable model of the HTTP header reader (device getc/ungetc + parser state machine + '
                 'header glue + process_request), the SCGI netstring reader, the FastCGI record/params/stdin reader over the read-ahead cache, whole '
-                'kept-alive connections and the string_pool arena: for every segmentation of the byte stream into reads (unbounded), every FastCGI '
-                'record layout and padding, and k requests on one connection the application observes exactly the encoded requests; the chunk-level '
-                'models equal byte/stream-level specifications; HTTP, SCGI and FastCGI deliver the same environment, view and body; every string_pool '
-                'allocation stays inside its page. The extracted chunk-level models (http_conn, scgi_decode_c, fcgi_conn_c, pool_run) and a real '
-                'cppcms::service (HTTP over loopback TCP, SCGI and FastCGI over unix sockets, sync and async applications) run on the same segmented '
-                'byte streams and everything the application observes is compared; an independent oracle compares the observation (incl. cookies) '
-                'with what the generator encoded.'),
-    level_note=('Trusted: Coq kernel; hand transcription of the parsers (tied by correspondence; leaf predicates separator/tocken condition/xdigit/'
-                'ascii_to_lower by cxx2v + Link.v); ExtrOcamlBasic extraction; harness/fe_service.cpp + accept() interposition to make segment '
-                'boundaries real read boundaries; kernel socket behaviour; cookies and multipart are checked by the oracle only (not in the Coq '
-                'model); duplicate header names and header blocks above 16384 bytes (where the real reader does depend on the segmentation) are '
-                'outside the well-formed domain; the SCGI decimal length is a parameter of the SCGI round-trip theorem.'),
+                'kept-alive connections, request::prepare (GET/POST urlencoded forms, cookies), the string_map hash map behind connection::env_ and the '
+                'string_pool arena: for every segmentation of the byte stream into reads (unbounded), every FastCGI record layout and padding, and k '
+                'requests on one connection the application observes exactly the encoded requests, each as if it were alone on a fresh connection; '
+                'header values of every lexical shape (LWS-folded, quoted, commented) are delivered as the folded text; HTTP, SCGI and FastCGI deliver '
+                'the same environment, view, body, GET/POST form maps and cookies; parse(encode fields) = fields; the environment of a well-formed HTTP '
+                'request is transportable (derived, not assumed); for every hash function and any number of variables with distinct names string_map '
+                'add/get (linear probing, growth at load factor 1/2, clear) equals the association list, all probe loops terminate; pool and map do not '
+                'leak between kept-alive requests; every string_pool allocation stays inside its page. The extracted models (http_conn, scgi_decode_c, '
+                'fcgi_conn_c, observe, smap_run, pool_run) and a real cppcms::service (HTTP over loopback TCP, SCGI and FastCGI over unix sockets, sync '
+                'and async applications) / the real string_map and string_pool classes run on the same inputs and everything observed is compared; an '
+                'independent oracle compares the observation with what the generator encoded.'),
+    level_note=('Trusted: Coq kernel; hand transcription of the parsers and of string_map / string_hash (tied by correspondence incl. slot positions; leaf '
+                'predicates separator/tocken condition/xdigit/ascii_to_lower by cxx2v + Link.v); ExtrOcamlBasic extraction; harness/fe_service.cpp + accept() '
+                'interposition to make segment boundaries real read boundaries; kernel socket behaviour; multipart is checked by the oracle only; duplicate '
+                'header / variable names (string_map returns the first or the second value depending on the number of growths, see docs/C01.md) and header '
+                'blocks above 16384 bytes (where the real reader does depend on the segmentation) are outside the well-formed domain; the SCGI decimal '
+                'length is a parameter of the SCGI round-trip theorem; the Content-Length decimal is a premise (v_clen = |body|).'),
 )
 
 GEN = {
@@ -104,6 +109,8 @@ def impl_items(case, out):
 
 def canon_impl_line(case, out):
     """harness output -> canonical ' | '-joined items"""
+    if out.startswith('<missing'):
+        return out
     return ' | '.join(i for i, _ in impl_items(case, out))
 
 
@@ -248,7 +255,7 @@ def expect_of(r):
     post = pairs(r.body) if (r.content_type or b'').lower().startswith(b'application/x-www-form-urlencoded') else []
     cl = str(len(r.body)) if (r.body or r.method == b'POST') else '0'
     # cookies (oracle only, not in the Coq model): a quoted value is delivered without its quotes
-    has_cookie = any(n == b'Cookie' for n, _ in r.headers)      # generators may have dropped the header again
+    has_cookie = any(n.lower() == b'cookie' for n, _ in r.headers)      # generators may have dropped the header again
     ck = dict((k, v[1:-1] if v.startswith(b'"') else v) for k, v in (getattr(r, 'cookies', {}) if has_cookie else {}).items())
     return canon_item(r.method, r.script, urldecode(r.path), qs, r.content_type or b'', cl,
                       {k: v for k, v in env.items()}, pairs(qs), post, r.body, ck)
@@ -311,7 +318,7 @@ def gen_cases(ctx):
             for i in range(1, len(data)):
                 cases.append(case_line(proto, [[data[:i], data[i:]]], exp, [rd]))
     # 2. random / special / byte-wise segmentations of random requests, and pairs of split points
-    for _ in range(ctx.scale(260, 2000)):
+    for _ in range(ctx.scale(200, 2000)):
         r = rnd_req(rng, big=rng.random() < 0.04)
         for proto in ('http', 'scgi', 'fcgi'):
             data, rd = encode(rng, r, proto, False)
@@ -344,6 +351,10 @@ def gen_cases(ctx):
             encs = [encode(rng, r, proto, True) for r in (r1, r2, r1)]
             exp = [expect_of(r) for r in (r1, r2, r1)]
             cases.append(case_line(proto, [[d] for d, _ in encs], exp, [rd for _, rd in encs]))
+    cases += gen_manyvars(ctx)
+    cases += gen_lexical(ctx)
+    cases += gen_forms_cookies(ctx)
+    cases += gen_keepalive_long(ctx)
     cases += gen_boundary(ctx)
     cases += gen_malformed(ctx)
     cases += gen_cookies(ctx)
@@ -367,6 +378,156 @@ def cap_split(segs):
     for x in segs:
         out += [x[i:i + 16384] for i in range(0, len(x), 16384)] or [x]
     return out
+
+
+def rnd_lex_value(rng):
+    """header value text aimed at the lexical states of parser::step: quoted strings with escapes, parentheses inside quotes, nested
+    comments with escapes and quotes inside, LWS continuation lines (CRLF SP / CRLF HT, several in a row, followed by more white space)
+    between the pieces"""
+    def quoted():
+        body = b''
+        for _ in range(rng.randint(0, 6)):
+            body += rng.choice([b'a', b' ', b'(', b')', b'((', b'\\"', b'\\\\', b'\\(', b',', b';', b'=', b'\t', b'\\a'])
+        return b'"' + body + b'"'
+
+    def comment():
+        # parser::step does not nest comments: the first unescaped ")" closes; "(" and the double quote are plain bytes inside
+        body = b''
+        for _ in range(rng.randint(0, 5)):
+            body += rng.choice([b'c', b' ', b'"', b'(', b'\\)', b'\\(', b'\\\\', b'x=y', b';', b'\t'])
+        return b'(' + body + b')'
+    parts = [rnd_token(rng)]
+    for _ in range(rng.randint(1, 5)):
+        k = rng.random()
+        if k < 0.3:
+            parts.append(quoted())
+        elif k < 0.55:
+            parts.append(comment())
+        elif k < 0.8:
+            parts.append(b''.join(b'\r\n' + rng.choice([b' ', b'\t', b'  ', b' \t']) for _ in range(rng.randint(1, 2))) + rnd_token(rng))
+        else:
+            parts.append(rng.choice([b' ', b'\t', b', ', b';q=0.5', b'=']) + rnd_token(rng, 0, 3))
+    return b''.join(parts)
+
+
+def gen_lexical(ctx):
+    """folded / quoted / commented header values on all three front ends (the HTTP reader folds; SCGI and FastCGI peers send the folded text)"""
+    rng = ctx.rng
+    cases = []
+    for _ in range(ctx.scale(40, 400)):
+        r = rnd_req(rng)
+        names = rng.sample(HDR_NAMES, rng.randint(1, 4))
+        r.headers = [(n, rnd_lex_value(rng)) for n in names]
+        for proto in ('http', 'scgi', 'fcgi'):
+            data, rd = encode(rng, r, proto, False)
+            for m in (['special', 'bytes' if len(data) < 500 else 'random'] if proto == 'http' else ['whole']):
+                cases.append(case_line(proto, [segment(rng, data, m)], [expect_of(r)], [rd]))
+    return cases
+
+
+def form_req(rng, full=False):
+    """request with GET fields, POST fields (urlencoded body) and cookies; field names and values over all 256 byte values"""
+    import urllib.parse
+
+    def field_bytes(lo, hi):
+        return bytes(rng.randrange(256) if rng.random() < 0.5 else rng.choice(b'ab =&+%;/?') for _ in range(rng.randint(lo, hi)))
+
+    def enc(items):
+        out = []
+        for k, v in items:
+            ek = urllib.parse.quote_from_bytes(k, safe='').encode()
+            ev = urllib.parse.quote_from_bytes(v, safe='').encode()
+            if rng.random() < 0.3:
+                ev = ev.replace(b'%20', b'+')
+            if rng.random() < 0.3:
+                ev = ev.lower()             # %3d as well as %3D
+            out.append(ek + b'=' + ev)
+        return b'&'.join(out)
+    n = rng.choice([1, 2, 5, 50]) if full else rng.randint(0, 4)
+    gets = [(field_bytes(1, 4), field_bytes(0, 6)) for _ in range(n)]
+    posts = [(field_bytes(1, 4), field_bytes(0, 6)) for _ in range(rng.choice([1, 3, 40]) if full else rng.randint(0, 4))]
+    r = Req(b'POST', rng.choice([b'/sync', b'/async']), rnd_path(rng), enc(gets) if gets else None, [], enc(posts), True,
+            rng.choice([b'application/x-www-form-urlencoded', b'application/X-WWW-form-urlencoded;charset=x']), False)
+    cookies = {}
+    for _ in range(rng.choice([0, 1, 3, 20]) if full else rng.randint(0, 3)):
+        cookies.setdefault(rnd_token(rng, 1, 5), rnd_token(rng, 0, 8))
+    r.cookies = cookies
+    if cookies:
+        r.headers.append((rng.choice([b'Cookie', b'cookie', b'COOKIE', b'cOOkie']), rng.choice([b'; ', b';', b' ; ']).join(k + b'=' + v for k, v in cookies.items())))
+    return r
+
+
+def gen_forms_cookies(ctx):
+    """GET / POST urlencoded fields over all byte values, '+' and %20, upper and lower case escapes, many fields; cookie lists of
+    1..20 cookies under every spelling of the header name; on all three front ends"""
+    rng = ctx.rng
+    cases = []
+    for _ in range(ctx.scale(30, 300)):
+        r = form_req(rng, full=rng.random() < 0.4)
+        for proto in ('http', 'scgi', 'fcgi'):
+            data, rd = encode(rng, r, proto, False)
+            cases.append(case_line(proto, [segment(rng, data, rng.choice(['whole', 'random', 'special']))], [expect_of(r)], [rd]))
+    return cases
+
+
+def gen_keepalive_long(ctx):
+    """kept-alive connections with 5..8 requests of every kind (forms, cookies, folded / quoted header values, many variables,
+    bodies), sent request by request, pipelined in one write, or pipelined and cut anywhere (also byte by byte)"""
+    rng = ctx.rng
+    cases = []
+    for _ in range(ctx.scale(14, 120)):
+        k = rng.randint(5, 8)
+        reqs = []
+        for _ in range(k):
+            c = rng.random()
+            if c < 0.3:
+                r = form_req(rng)
+            elif c < 0.6:
+                r = rnd_req(rng)
+                r.headers = [(n, rnd_lex_value(rng)) for n in rng.sample(HDR_NAMES, rng.randint(1, 3))]
+                r.cookies = {}
+            elif c < 0.75:
+                r = rnd_req(rng)
+                r.headers = [(b'X-V-%d' % i, rnd_token(rng, 1, 5)) for i in range(rng.choice([30, 40, 70]))]
+                r.cookies = {}
+            else:
+                r = rnd_req(rng)
+            reqs.append(r)
+        for proto in ('http', 'fcgi'):
+            encs = [encode(rng, r, proto, True) for r in reqs]
+            exp = [expect_of(r) for r in reqs]
+            mode = rng.choice(['each', 'pipe', 'pipecut', 'pipebytes'])
+            if mode == 'each':
+                cases.append(case_line(proto, [segment(rng, d, rng.choice(['whole', 'random', 'special'])) for d, _ in encs], exp, [rd for _, rd in encs]))
+                continue
+            alld = b''.join(d for d, _ in encs)
+            sg = segment(rng, alld, {'pipe': 'whole', 'pipecut': 'random', 'pipebytes': 'bytes' if len(alld) < 1500 else 'special'}[mode])
+            cases.append(proto + ' ' + ' '.join(['S:' + hx(x) for x in cap_split(sg)] + [rd for _, rd in encs]) + ' X:' + hx(json.dumps(exp).encode()))
+    return cases
+
+
+def gen_manyvars(ctx):
+    """requests carrying 1..140 additional variables on every front end: connection::env_ (string_map) grows at the 33rd, 65th and
+    129th variable; every accessor of the echo application is a get() on the grown table (also for absent names: HTTP_COOKIE,
+    CONTENT_TYPE), getenv() is its iteration; a small request afterwards on the kept connection sees the cleared map"""
+    rng = ctx.rng
+    cases = []
+    ns = set([1, 2, 140] + list(range(18, 34, 3)) + list(range(50, 66, 3)) + list(range(114, 130, 3))) if ctx.tier == 'quick' else set(range(1, 141))
+    ns |= set(rng.sample(range(1, 141), ctx.scale(8, 20)))
+    for n in sorted(ns):
+        r = rnd_req(rng)
+        names = smap_names(rng, n, None)
+        r.headers = [(b'X-' + k.replace(b'_', b'-') + b'-%d' % i, rnd_token(rng, 1, 6)) for i, k in enumerate(names)]
+        small = rnd_req(rng)
+        small.headers = small.headers[:2]
+        for proto in ('http', 'scgi', 'fcgi'):
+            data, rd = encode(rng, r, proto, False)
+            cases.append(case_line(proto, [segment(rng, data, rng.choice(['whole', 'random']))], [expect_of(r)], [rd]))
+        if rng.random() < (0.4 if ctx.tier == 'quick' else 1.0):
+            for proto in ('http', 'fcgi'):
+                encs = [encode(rng, x, proto, True) for x in (r, small, r)]
+                cases.append(case_line(proto, [[d] for d, _ in encs], [expect_of(x) for x in (r, small, r)], [rd for _, rd in encs]))
+    return cases
 
 
 def gen_boundary(ctx):
@@ -549,9 +710,142 @@ def pool_oracle(case, out):
     return None
 
 
+
+# ---------------------------------------------------------------------------- string_map (private/string_map.h)
+def elf_hash(k):
+    st = 0
+    for c in k:
+        st = ((st << 4) + c) & 0xffffffff
+        high = st & 0xF0000000
+        if high:
+            st = (st ^ (high >> 24)) ^ high
+    return st
+
+
+SMAP_NS = [0, 1, 2, 3, 16, 31, 32, 33, 34, 63, 64, 65, 66, 127, 128, 129, 130, 140, 200, 257]
+CGI_NAMES = [b'SERVER_PROTOCOL', b'REQUEST_METHOD', b'QUERY_STRING', b'SCRIPT_NAME', b'PATH_INFO', b'CONTENT_LENGTH', b'CONTENT_TYPE',
+             b'HTTP_HOST', b'HTTP_COOKIE', b'HTTP_ACCEPT', b'REMOTE_ADDR', b'REMOTE_HOST', b'SERVER_NAME', b'SERVER_PORT', b'HTTPS', b'GATEWAY_INTERFACE']
+
+
+def smap_names(rng, n, collide=None):
+    """n distinct CGI-like names; collide = (modulus, residue): every name hashes to that residue (linear probing, wrap-around)"""
+    out, seen = [], set()
+    base = list(CGI_NAMES)
+    rng.shuffle(base)
+    i = 0
+    while len(out) < n:
+        if collide is None and base and rng.random() < 0.5:
+            k = base.pop()
+        else:
+            i += 1
+            k = rng.choice([b'HTTP_X_V%d', b'HTTP_X%d', b'X%d', b'HTTP_ACCEPT_%d', b'k%d']) % rng.randrange(0, 1000000)
+            if collide is not None or rng.random() < 0.3:
+                k += bytes(rng.choice(b'ABCDEFGHIJKLMNOPQRSTUVWXYZ_abcdefghijklmnopqrstuvwxyz') for _ in range(2))
+        if k in seen or (collide is not None and elf_hash(k) % collide[0] != collide[1]):
+            continue
+        seen.add(k)
+        out.append(k)
+    return out
+
+
+def gen_smap(ctx):
+    rng = ctx.rng
+    cases = []
+
+    def val():
+        return rng.choice([b'', b'1', b'text/html', rnd_token(rng, 1, 12), b'a b;c=d', b'\xff\x80'])
+
+    def line(names, dup=0, extra_ops=()):
+        adds = [(k, val()) for k in names]
+        for _ in range(dup):
+            if adds:
+                adds.insert(rng.randrange(0, len(adds) + 1), (rng.choice(adds)[0], val()))
+        ops = ['a%s=%s' % (hx(k), hx(v)) for k, v in adds]
+        probes = list(names) if len(names) <= 40 else rng.sample(names, 40)
+        absent = [b'HTTP_ABSENT', b'', b'CONTENT_TYPE_', b'Z'] + [k + b'x' for k in probes[:3]] + [k[:-1] for k in probes[:3]]
+        gets = ['g' + hx(k) for k in probes + [a for a in absent if a not in names]]
+        rng.shuffle(gets)
+        # lookups interleaved with the adds (request::prepare reads while nothing is added any more; the HTTP front end reads
+        # CONTENT_LENGTH etc. after the last add) and a dump at the end
+        cut = rng.randrange(0, len(ops) + 1)
+        return 'smap ' + ' '.join(ops[:cut] + gets[:5] + ops[cut:] + ['d'] + gets + list(extra_ops))
+    for n in SMAP_NS:
+        cases.append(line(smap_names(rng, n)))
+    for _ in range(ctx.scale(60, 600)):
+        n = rng.choice(SMAP_NS) if rng.random() < 0.5 else rng.randint(0, 140)
+        k = rng.random()
+        if k < 0.35:
+            cases.append(line(smap_names(rng, n)))
+        elif k < 0.6:
+            mod = rng.choice([64, 128, 256])
+            cases.append(line(smap_names(rng, min(n, 70), (mod, rng.choice([0, 1, mod - 1, mod - 2, 63, rng.randrange(mod)]) % mod))))
+        elif k < 0.8:
+            cases.append(line(smap_names(rng, n), dup=rng.randint(1, 3)))
+        else:
+            # clear() between two requests on one connection: the second request is served from the initial map
+            a = line(smap_names(rng, n))
+            b = line(smap_names(rng, rng.choice(SMAP_NS[:14])))
+            cases.append(a + ' c d ' + b[5:])
+    return cases
+
+
+def smap_oracle(case, out):
+    """string_map alone: every name added exactly once is retrievable with its value, a name added several times yields one of its values,
+    an absent name yields the null pointer, no probe loop runs away, total_*2 <= size after every add, the iteration visits exactly the added names"""
+    if out.startswith('<crash') or 'LOOP' in out.split():
+        return ('smap-loop', 'string_map probe loop does not stop / harness died: ' + out[:200])
+    toks = out.split()
+    if toks == ['=']:
+        toks = []
+    cur = {}
+    order = []
+    ti = 0
+    for op in case.split()[1:]:
+        if op[0] == 'a':
+            k, v = op[1:].split('=')
+            cur.setdefault(unhx(k), []).append(unhx(v))
+            order.append(unhx(k))
+        elif op[0] == 'c':
+            cur, order = {}, []
+        elif op[0] == 'g':
+            if ti >= len(toks):
+                return ('smap-short', 'missing results')
+            t = toks[ti]
+            ti += 1
+            k = unhx(op[1:])
+            if k not in cur:
+                if t != '0':
+                    return ('smap-get', 'lookup of the absent name %r returned %s' % (k, t))
+            elif t == '0' or unhx(t) not in cur[k]:
+                return ('smap-get', 'name %r was added with %r, get returned %s' % (k, cur[k], t))
+        elif op[0] == 'd':
+            if ti >= len(toks):
+                return ('smap-short', 'missing results')
+            t = toks[ti]
+            ti += 1
+            m = re.match(r'D(\d+)/(\d+)\[(.*)\]$', t)
+            if not m:
+                return ('smap-dump', 'bad dump ' + t[:80])
+            size, total = int(m.group(1)), int(m.group(2))
+            items = [x.split(':') for x in m.group(3).split(',')] if m.group(3) else []
+            if total != len(order) or total * 2 > size or sorted(unhx(k) for _, k in items) != sorted(order) \
+                    or len(set(p for p, _ in items)) != len(items) or any(not 0 <= int(p) < size for p, _ in items):
+                return ('smap-dump', 'iteration / load factor wrong: %d adds, dump %s' % (len(order), t[:120]))
+    return None
+
+
+_HANG = {'seen': False}
+
+
 def oracle(case, out):
     if out.startswith('<crash'):
         return ('frontend-crash', 'harness/service died: ' + out)
+    if out.startswith('<missing'):
+        # only the first unanswered case of a run is reported: the cases after it in the same harness process are unanswered as well
+        if _HANG['seen']:
+            return None
+        _HANG['seen'] = True
+        return ('frontend-hang', 'the service stopped answering (hung or died) at this case')
     toks = case.split()
     proto = toks[0]
     x = [t for t in toks if t.startswith('X:')]
@@ -602,12 +896,13 @@ def run(ctx):
         'tools/cxx2v.py + clang 14 JSON AST (separator, xdigit from private/http_protocol.h)',
         'extraction: ExtrOcamlBasic only, OCaml 4.13.1',
         'harness/fe_service.cpp (in-process cppcms::service, accept() interposition, echo applications), checks/fe_common.py encoders',
-        'hand model coq/C01/Defs.v, Chunked.v, Conn.v, Pool.v of http_parser.h / http_api.cpp / scgi_api.cpp / fastcgi_api.cpp reading paths and string_map.h string_pool',
-        'harness/C01_pool.cpp (string_pool internals read through #define private public; AddressSanitizer)']
+        'hand model coq/C01/Defs.v, Chunked.v, Conn.v, Cookies.v, Observe.v, SMap.v, Pool.v of http_parser.h / http_api.cpp / scgi_api.cpp / fastcgi_api.cpp reading paths, http_request.cpp prepare and string_map.h (string_map, string_pool), hash_map.h string_hash',
+        'harness/C01_pool.cpp (string_pool internals read through #define private public; AddressSanitizer), harness/C01_smap.cpp (string_map driven directly, bounded re-run of the probe loops)']
     ctx.assumptions = ['kernel delivers socket bytes in order', 'header names are unique within a request (well-formed domain; premise NoDup of frontends_agree)',
                        'theorem premises: within_cap / no IOverCap (header block of at most 16385 bytes), layout_ok (records of 1..65535 bytes, padding < 256), '
-                       'env_ok (no NUL, lengths < 2^31), PARAMS below 16384 bytes, Content-Length = body length, token method and header names, header values '
-                       'without CR / double quote / opening parenthesis in frontends_agree (folded and quoted lines are covered by http_head_lines + http_header_glue_general)',
+                       'env_ok (no NUL, lengths < 2^31) for environments chosen by an SCGI / FastCGI peer (derived for the environment of a well-formed HTTP request), '
+                       'PARAMS below 16384 bytes, Content-Length = body length, token method and header names, header value texts in the lexical classes of the '
+                       'parser (gvalue_ok: quoted strings and comments closed, CR only in CRLF SP/HT), distinct variable names for the string_map theorems',
                        'the server thread reads a segment before the next one is sent (observed through FIONREAD on the accepted fd); '
                        'if it does not, segments coalesce, which by the segmentation theorem cannot change the result']
     exe, err = vlib.build_harness('fe_service', ['fe_service.cpp'], extra=['-ldl'])
@@ -624,19 +919,36 @@ def run(ctx):
                             'values across kept-alive requests. Non-trivial = the request bytes are sent in at least two segments; distinct = distinct case lines.')
     os.makedirs(ctx.workdir, exist_ok=True)
     pool_cases = [c for c in cases if c.startswith('pool ')]
-    cases = [c for c in cases if not c.startswith('pool ')]
+    smap_cases = [c for c in cases if c.startswith('smap ')]
+    cases = [c for c in cases if not c.startswith(('pool ', 'smap '))]
     if ctx.replay_cases is None:
         pool_cases += gen_pool(ctx)
-    vlib.differential(ctx, cases, exe, mexe, oracle, nontrivial, classify,
-                      impl_env={'FE_WORKDIR': ctx.workdir},
-                      canon_case=canon_impl_line, canon_model=canon_model_line, jobs=12)
+        smap_cases += gen_smap(ctx)
     # the arena of the environment strings: header-only class, own small harness built with ASan
     pexe, err = vlib.build_harness('C01_pool', ['C01_pool.cpp'], link=False, extra=['-fsanitize=address'])
     if not pexe:
         ctx.broke('string_pool harness build failed', err)
         return
+    sexe, err = vlib.build_harness('C01_smap', ['C01_smap.cpp'], link=False, extra=['-fsanitize=address'])
+    if not sexe:
+        ctx.broke('string_map harness build failed', err)
+        return
+    if smap_cases:
+        vlib.differential(ctx, smap_cases, sexe, mexe, smap_oracle, lambda c, o: c.count(' a') > 32,
+                          lambda c, o: 'smap:' + ('grown' if c.count(' a') > 32 else 'small') + (':clear' if ' c ' in c else ''),
+                          what='correspondence string_map model vs implementation', jobs=4)
     if pool_cases:
         vlib.differential(ctx, pool_cases, pexe, mexe, pool_oracle, lambda c, o: 'c ' in c, lambda c, o: 'pool:' + ('clear' if ' c' in c else 'noclear'),
                           what='correspondence string_pool model vs implementation', canon=pool_canon, jobs=4)
-
-
+    # the service itself (last: a string_map whose probe loops do not stop would hang the worker threads of the in-process service for good;
+    # in that case the violation has already been reported above with a concrete string_map replay)
+    if any(k == 'smap-loop' for k, _, _ in ctx.failures):
+        ctx.notes.append('service differential skipped: string_map probe loop does not terminate (reported with a string_map replay)')
+        return
+    if not cases:
+        return          # a replay file with string_map / string_pool cases only
+    # a service that hangs for good (a worker thread spinning or dead-locked after a memory error) is killed after a bound, so that the
+    # missing answers are reported against the case at which the harness stopped instead of waiting for the 20 min limit of the runner
+    vlib.differential(ctx, cases, ['timeout', '-k', '5', str(ctx.scale(600, 1500)), exe], mexe, oracle, nontrivial, classify,
+                      impl_env={'FE_WORKDIR': ctx.workdir},
+                      canon_case=canon_impl_line, canon_model=canon_model_line, jobs=12)
